@@ -47,13 +47,13 @@ Section History.
     exists ext, log x' = log x ++ ext /\
       forall ev, In ev ext -> exists n, (n = h_file h \/ In n (h_listed h) /\ plain n = true) /\ ev = EvRemove (h_dir h, n).
   Proof.
-    unfold do_remove. destruct (forallb plain (h_listed h)) eqn:P; cbn [negb].
+    unfold do_remove. destruct (listed_ok h) eqn:P; cbn [negb].
     2:{ intros E. inversion E; subst. exists []. rewrite app_nil_r. split; [reflexivity|contradiction]. }
     destruct (each rm (h_dir h) [] (h_listed h) x) as [x1 ok1] eqn:EA.
     destruct (each_remove fault _ _ _ _ _ EA) as (e1&L1&A1&_&_).
     assert (A1' : forall ev, In ev e1 -> exists n, (n = h_file h \/ In n (h_listed h) /\ plain n = true) /\ ev = EvRemove (h_dir h, n)).
     { intros ev Hin. destruct (A1 ev Hin) as (n&Hn&->). exists n. split; [right; split; [exact Hn|]|reflexivity].
-      rewrite forallb_forall in P. now apply P. }
+      apply listed_ok_plain in P. rewrite forallb_forall in P. now apply P. }
     destruct ok1.
     - intros O. destruct (remove_log fault _ _ _ _ O) as (e2&L2&A2&_&_). exists (e1 ++ e2). rewrite L2, L1, <- app_assoc.
       split; [reflexivity|]. intros ev Hin. apply in_app_or in Hin as [Hin|Hin]; [now apply A1'|].
@@ -66,7 +66,7 @@ Section History.
   Proof.
     intros R Hd. assert (Ne : forall n, entry_eqb (h_dir h, n) e' = false).
     { intros n. destruct e' as [d m]. apply entry_neq_fst. cbn in Hd. congruence. }
-    unfold do_remove in R. destruct (negb (forallb plain (h_listed h))); [inversion R; now subst|].
+    unfold do_remove in R. destruct (negb (listed_ok h)); [inversion R; now subst|].
     destruct (each rm (h_dir h) [] (h_listed h) x) as [x1 ok1] eqn:EA.
     destruct (each_remove fault _ _ _ _ _ EA) as (_&_&_&_&F1).
     rewrite <- (F1 e') by (intros n _; apply Ne).
@@ -77,7 +77,7 @@ Section History.
   Theorem C20_remove_success h x x' : ~ In (h_file h) (h_listed h) -> do_remove fault h x = (x', true) ->
     forall n, In n (h_file h :: h_listed h) -> fs_get (h_dir h, n) (fs x') = None.
   Proof.
-    intros Hnot. unfold do_remove. destruct (negb (forallb plain (h_listed h))); [discriminate|].
+    intros Hnot. unfold do_remove. destruct (negb (listed_ok h)); [discriminate|].
     destruct (each rm (h_dir h) [] (h_listed h) x) as [x1 ok1] eqn:EA. destruct ok1; [|discriminate].
     intros R n [<-|Hn]; [now apply (remove_gone _ x1)|].
     apply (remove_keeps_none _ _ _ _ _ R). now apply (each_gone _ _ _ _ EA).
